@@ -21,7 +21,7 @@ ASSUMPTIONS = [
 MNS = ["COMP", "WELL", "FLD", "X1", "A B", "GR_1", "a", "Kb", "RUN-2", "Q(1)", "SRVC", "DATE", "LOC 2"]
 UNITS = ["", "M", "FT", "G/CM3", "US/M", "OHMM", "%", "DEGC", "K.M", "hh:mm", "m/s2", "1/M", "M3", "lbf"]
 VALS = ["", "ANY OIL COMPANY INC.", "WELL-1", "15_9", "A9-16-49-20W3M", "hello world", "x (y) [z]", "12-34", "\"quoted\"", "it's",
-        "12.5", "100", "-3", "1e3", "007", "3.", ".5", "a.b", "e.g. this", "1000 lbf", "0", "0.0", "12,5", "-999.25", "x" * 45,
+        "12.5", "100", "-3", "1e3", "007", "3.", ".5", "a.b", "e.g. this", "1000 lbf", "0", "0.0", "12,5", "SEC 12,13 TWP 4", "1,250,000", "1,5,2", "-999.25", "x" * 45,
         "{braces}", "100 2000", "N/A"]
 DESCS = ["", "COMPANY", "1  DEPTH", "x (y)", "log #2", "a-b", "ends.", "\"q\"", "{F}", "v.2 of it", "d" * 50, "12.5", "007"]
 CURVE_VALS = ["", "45 310 01 00", "7 350 01 00", "API", "x.y", "12"]
